@@ -641,12 +641,14 @@ type c08elemPtr struct {
 }
 
 type c08outcome struct {
-	ret  *ssa.Return
-	vals []any
+	ret   *ssa.Return
+	vals  []any
+	trace []ssa.Instruction // the watched instructions executed on the way, in order
 }
 
 type c08interp struct {
 	oracle  func(ssa.Value) (any, bool)
+	watch   func(ssa.Instruction) bool // instructions recorded in the trace of every outcome (nil: none)
 	steps   int
 	rets    []c08outcome
 	panics  []ssa.Instruction
@@ -656,12 +658,18 @@ type c08interp struct {
 }
 
 func c08explore(f *ssa.Function, oracle func(ssa.Value) (any, bool)) *c08interp {
-	it := &c08interp{oracle: oracle, steps: 20000, tabs: map[*ssa.Global]*c08table{}, tabDone: map[*ssa.Global]bool{}}
+	return c08exploreWatch(f, oracle, nil)
+}
+
+// c08exploreWatch is c08explore that also records, for every outcome, which of the
+// watched instructions (calls, typically) were passed on the way to the return.
+func c08exploreWatch(f *ssa.Function, oracle func(ssa.Value) (any, bool), watch func(ssa.Instruction) bool) *c08interp {
+	it := &c08interp{oracle: oracle, watch: watch, steps: 20000, tabs: map[*ssa.Global]*c08table{}, tabDone: map[*ssa.Global]bool{}}
 	if f == nil || len(f.Blocks) == 0 {
 		it.failed = "no body"
 		return it
 	}
-	it.walk(f.Blocks[0], nil, map[ssa.Value]any{}, map[ssa.Value]any{}, map[*ssa.BasicBlock]int{})
+	it.walk(f.Blocks[0], nil, map[ssa.Value]any{}, map[ssa.Value]any{}, map[*ssa.BasicBlock]int{}, nil)
 	return it
 }
 
@@ -706,7 +714,7 @@ func (it *c08interp) val(env map[ssa.Value]any, v ssa.Value) any {
 	return env[v]
 }
 
-func (it *c08interp) walk(b, prev *ssa.BasicBlock, env, mem map[ssa.Value]any, seen map[*ssa.BasicBlock]int) {
+func (it *c08interp) walk(b, prev *ssa.BasicBlock, env, mem map[ssa.Value]any, seen map[*ssa.BasicBlock]int, trace []ssa.Instruction) {
 	for it.failed == "" {
 		seen[b]++
 		if seen[b] > 4 {
@@ -736,6 +744,9 @@ func (it *c08interp) walk(b, prev *ssa.BasicBlock, env, mem map[ssa.Value]any, s
 				it.failed = "step bound exceeded"
 				return
 			}
+			if it.watch != nil && it.watch(in) {
+				trace = append(trace[:len(trace):len(trace)], in)
+			}
 			switch x := in.(type) {
 			case *ssa.Phi, *ssa.DebugRef:
 			case *ssa.Return:
@@ -743,7 +754,7 @@ func (it *c08interp) walk(b, prev *ssa.BasicBlock, env, mem map[ssa.Value]any, s
 				for _, r := range x.Results {
 					out = append(out, it.val(env, r))
 				}
-				it.rets = append(it.rets, c08outcome{x, out})
+				it.rets = append(it.rets, c08outcome{x, out, trace})
 				return
 			case *ssa.Panic:
 				it.panics = append(it.panics, in)
@@ -764,7 +775,7 @@ func (it *c08interp) walk(b, prev *ssa.BasicBlock, env, mem map[ssa.Value]any, s
 				for k, v := range seen {
 					s2[k] = v
 				}
-				it.walk(b.Succs[0], b, c08cloneEnv(env), c08cloneEnv(mem), s2)
+				it.walk(b.Succs[0], b, c08cloneEnv(env), c08cloneEnv(mem), s2, trace)
 				next = b.Succs[1]
 			case *ssa.Store:
 				if al, ok := x.Addr.(*ssa.Alloc); ok {
